@@ -203,6 +203,9 @@ func trunc(s string, n int) string {
 // solveAll writes and solves the obligations in parallel.
 func solveAll(items []*oblItem, outDir string, opts solveOpts, par int) {
 	os.MkdirAll(outDir, 0o755)
+	for _, it := range items {
+		it.x.prelude() // built once per function, single-threaded (it interns literals)
+	}
 	var wg sync.WaitGroup
 	sem := make(chan struct{}, par)
 	for _, it := range items {
